@@ -326,7 +326,12 @@ func ruleScalarStore(c *Ctx) {
 			continue
 		}
 		if consts[0] != "WTVarInt" && consts[0] != "WT64" && consts[0] != "WT32" {
-			continue
+			// length-delimited leaves (strings, bytes, times, null values) must
+			// overwrite too: a present empty value replaces what the target held.
+			// Containers merge or append by design and are judged by their own rules.
+			if !p.lengthLeaf(ct) {
+				continue
+			}
 		}
 		f := p.SSA.FuncValue(ct.Methods["Read"].Fn)
 		if f == nil || len(f.Blocks) == 0 {
@@ -361,7 +366,8 @@ func ruleScalarStore(c *Ctx) {
 					case *ssa.Call:
 						// delegation to another scalar Read with the same ptr, or SetValid-like method on the target
 						for _, a := range x.Common().Args {
-							if rr := rootOf(a); rr.kind == rkParam && isPtrParam(f, rr.base) && !isByteSlice(a.Type()) {
+							// (a []byte rooted at the target pointer is the target seen as bytes: copy(id[:], data))
+							if rr := rootOf(a); rr.kind == rkParam && isPtrParam(f, rr.base) {
 								stored = true
 							}
 						}
@@ -373,6 +379,40 @@ func ruleScalarStore(c *Ctx) {
 		}
 	}
 	c.Floor("X.scalarstore", 12)
+}
+
+// lengthLeaf: a WTLength codec whose Descriptor (followed through delegation
+// to an embedded or wrapped codec) is a string or a time - a single leaf value.
+// The struct, map, slice, pointer and JSON container codecs are not leaves.
+func (p *Prog) lengthLeaf(ct *CodecType) bool {
+	for depth := 0; ct != nil && depth < 4; depth++ {
+		di := p.descriptorInfo(ct)
+		switch di.Type {
+		case "FieldTypeString", "FieldTypeTime":
+			return true
+		case "":
+		default:
+			return false
+		}
+		if di.DelegType == nil {
+			return false
+		}
+		var next *CodecType
+		for _, o := range p.Codecs {
+			if types.Identical(derefT(di.DelegType), o.Named) || (o.Named.Origin() != nil && namedOrigin(derefT(di.DelegType)) == o.Named.Origin()) {
+				next = o
+			}
+		}
+		ct = next
+	}
+	return false
+}
+
+func namedOrigin(t types.Type) *types.Named {
+	if n, ok := t.(*types.Named); ok {
+		return n.Origin()
+	}
+	return nil
 }
 
 func isPtrParam(f *ssa.Function, v ssa.Value) bool {
